@@ -68,13 +68,20 @@ class Check:
     # ------------------------------------------------------------ extract / build / audit
     def extract(self):
         from tools.extract import run_all
+        from tools.harness import common
+        # the translators drive the live lexers / parsers over exemplar statements: a lexer that stops advancing must
+        # break the obligation (and leave the verdict to the probes), not stall the check
+        common.install_lexer_guard()
         try:
-            info = run_all.main()
+            with common.time_limit(900):
+                info = run_all.main()
             self.oblige('extract', 'translator', True, json.dumps(info)[:500])
             return True
-        except Exception as e:
+        except (Exception, common.HangDetected) as e:
             self.oblige('extract', 'translator', False, traceback.format_exc()[-1500:])
             return False
+        finally:
+            common.remove_lexer_guard()
 
     def build(self, targets):
         """lake build of the given modules; every failing module becomes a broken obligation"""
